@@ -166,6 +166,29 @@ def run_codecs(ev, state, coords, job):
             bad(f'unpack_to_pytree(pack_pytree(t, axis={axis})) != t: {msg}')
         except Exception as e:  # pylint: disable=broad-except
           bad(f'pack/unpack along axis {axis} raised {type(e).__name__}: {str(e)[:160]}')
+    # 3c. default arguments of the pair must agree with each other (leaves with a
+    #     leading time / batch axis, where axis -3 is not axis 0)
+    try:
+      t4 = {'a': np.stack([a0, a0 * 2, a0 * 3]), 'b': {'c': np.stack([a0[:1]] * 3)}}
+      back = pytree_utils.unpack_to_pytree(pytree_utils.pack_pytree(t4),
+                                           pytree_utils.shape_structure(t4))
+      ok, msg = tree_bits_equal(t4, back)
+      if not ok:
+        bad(f'unpack_to_pytree(pack_pytree(t)) with default axes != t: {msg}')
+      t3 = {'a': a0, 'b': {'c': a0[:1]}}
+      back = pytree_utils.unpack_to_pytree(pytree_utils.pack_pytree(t3),
+                                           pytree_utils.shape_structure(t3))
+      ok, msg = tree_bits_equal(t3, back)
+      if not ok:
+        bad(f'unpack_to_pytree(pack_pytree(t)) with default axes != t (3-D leaves): {msg}')
+      same3 = {'u': a0, 'v': {'w': a0 * 2}}
+      back = pytree_utils.unstack_to_pytree(pytree_utils.stack_pytree(same3), same3)
+      ok, msg = tree_bits_equal(same3, back)
+      if not ok:
+        bad(f'unstack_to_pytree(stack_pytree(t)) with default axes != t: {msg}')
+    except Exception as e:  # pylint: disable=broad-except
+      bad(f'pack/unpack or stack/unstack with default axes raised {type(e).__name__}: '
+          f'{str(e)[:160]}')
     # 4. stack / unstack
     same = {'u': arrs[0], 'v': {'w': arrs[0] * 2, 'z': arrs[0] + 1}}
     for axis in (0, 1, -1):
